@@ -14,6 +14,8 @@ def run(ctx):
     ctx.rule('R-C19c', 'CONTAINER-FREE for the running-child record and release of everything on submit failure paths', floor=4)
     ctx.rule('R-C19d', 'close detaches the request before arming the kill timer, only while the child is still running; the exit '
                        'notification clears the request\'s child pointer when still attached, else cancels the timer', floor=4)
+    ctx.rule('R-C19e', 'no signal after the child ended: the wait module recognises exited and signalled children as terminated (shared with C11)', floor=6)
+    ctx.section(lambda c: __import__('ivy.rules.c11', fromlist=['x']).status_table(c, 'R-C19e'))
     ctx.section(wiring)
     ctx.section(escalation)
     ctx.section(container)
